@@ -95,6 +95,21 @@ fn gen_word(rng: &mut Rng) -> (u32, &'static str) {
             _ => w = (w & !(0x1f << 16)) | (r << 16),
         }
     }
+    // aliasing operands (mov w0, w0; add x1, x1, x1; ldp x9, x3, [x9])
+    if rng.chance(1, 5) {
+        match rng.below(3) {
+            0 => w = (w & !0x1f) | ((w >> 16) & 0x1f),
+            1 => w = (w & !0x1f) | ((w >> 5) & 0x1f),
+            _ => w = (w & !(0x1f << 16)) | (((w >> 5) & 0x1f) << 16),
+        }
+        // register moves are the orr-alias with Rn = 31
+        if matches!(name, "logical_shift") && rng.bool() {
+            w = (w & !(0x1f << 5)) | (31 << 5);
+            w &= !(0x3f << 10);
+            w = (w & !(0x3 << 29)) | (1 << 29);
+            w &= !(1 << 21);
+        }
+    }
     (w, name)
 }
 
